@@ -19,6 +19,14 @@ func main() {
 		os.Exit(2)
 	}
 	prop := os.Args[1]
+	if prop == "kworker" {
+		harness.KWorkerMain(os.Args[2], os.Stdin, os.Stdout)
+		return
+	}
+	if prop == "kdump" {
+		harness.KDump(os.Args[2], os.Args[3:])
+		return
+	}
 	fs := flag.NewFlagSet("vharness", flag.ExitOnError)
 	tier := fs.String("tier", "quick", "quick | thorough")
 	seed := fs.Int64("seed", 0, "seed (only permutes visiting order where used)")
